@@ -53,6 +53,7 @@ type ioDelegate struct {
 	outfile *os.File
 	cache   *cache.File
 	tmpin   bool
+	done    bool
 }
 
 func newIODelegate(inpath, outpath string) (*ioDelegate, error) {
@@ -71,7 +72,7 @@ func newIODelegate(inpath, outpath string) (*ioDelegate, error) {
 		}
 	}
 
-	return &ioDelegate{input, output, nil, false}, nil
+	return &ioDelegate{input, output, nil, false, false}, nil
 }
 
 func (d *ioDelegate) Read(p []byte) (int, error) {
@@ -158,6 +159,11 @@ func (d *ioDelegate) TryCache(h hash.Hash, data []byte) (bool, error) {
 	return true, nil
 }
 
+// Commit marks the run as successful so that Close keeps the cache entry.
+func (d *ioDelegate) Commit() {
+	d.done = true
+}
+
 func (d *ioDelegate) Close() error {
 	if d.tmpin {
 		defer os.Remove(d.infile.Name())
@@ -167,7 +173,7 @@ func (d *ioDelegate) Close() error {
 	defer d.outfile.Close()
 
 	if d.cache != nil {
-		if err := d.cache.Close(); err != nil {
+		if err := d.cache.Close(); err != nil || !d.done {
 			os.Remove(d.cache.Name())
 		}
 	}
